@@ -217,6 +217,7 @@ def _cross_pairs(rng):
                 dt.pop()
                 out.append(_op(_ds(rng, name), name, ax, rng.choice(["plot", "text", "csv"]), r=rng.choice(["1", "5"])))
                 out.append(_op(_ds(rng, name), name, ax, rng.choice(["plot", "text", "csv"]), r="0,2,5"))
+                out.append(_op(_ds(rng, name), name, ax, rng.choice(["plot", "text", "csv"]), q="0.1,0.9"))
             else:
                 out.append(_op(_ds(rng, name), name, ax, dt.pop(), r=rng.choice(["1", "5", "0,2,5"])))
     return out
